@@ -54,7 +54,11 @@ def one_case(job):
             kind = "first-npo-wrong"
             wrong = rng.choice([14, 15, len(data), 13 + rng.randrange(1, 40)])
             data = data[:5] + wrong.to_bytes(4, "big") + data[9:]
-        elif r0 < 0.22:
+        elif r0 < 0.16:
+            # empty and tiny files (shorter than one parse_info header)
+            kind = "tiny-file"
+            data = rng.choice([b"", b"", b"B", b"BBCD", b"BBCD\x10", data[:12], data[:13], b"\x00" * 13, b"BBCD\x10" + b"\x00" * 8])
+        elif r0 < 0.25:
             kind, data = common.degenerate_stream(rng)
         elif r0 < 0.6:
             kind, data = common.mutate(data, rng)
